@@ -31,6 +31,8 @@ def handle (j : Json) : M Json := do
   | "elements" => opElements j
   | "rt" => opRt j
   | "txt_fields" => opTxtFields j
+  | "txt_write" => opTxtWrite j
+  | "txt_read" => opTxtRead j
   | "bounds" => opBounds j
   | "closed" => opClosed j
   | "parking" => opParking j
